@@ -14,8 +14,8 @@ open Pool
 /-- whatever the worker's outcome (`e = none`: returned, `e = some x`: raised `x`), the step that ends the worker
 goes through the same `_task_ending` path and preserves every invariant: slot conservation (the slot is handed back
 exactly once), the registries, the groups and the callback life cycle -/
-theorem C12_failure_same_invariants {cap : Cap} (p : Pool) (t : Nat) (e : Option Err) (hg : Good cap p) (s : SoftP)
-    (hc : p.Cur t s) (hph : s.phase = .inWorker) : Good cap (p.afterWorker t e) :=
+theorem C12_failure_same_invariants {cap : Cap} {L : Bool} (p : Pool) (t : Nat) (e : Option Err) (hg : Good cap L p) (s : SoftP)
+    (hc : p.Cur t s) (hph : s.phase = .inWorker) : Good cap L (p.afterWorker t e) :=
   good_afterWorker p t e hg s hc (inWork_of hc hg (Or.inr hph))
 
 /-- **every task that finishes has handed back its slot**, in every pool after every history (any sizes, failures,
@@ -27,6 +27,13 @@ theorem C12_finished_released (base : Nat) (h : History) (i : Nat) (c : Cfg) (p 
   have := (lifeAll base h i c p hc hp) t tk ht
   rw [hl] at this
   exact (this.fin hf rfl).1
+
+/-- the same with the hypothesis discharged, for every history without `flush` / `gather_and_close` / `until_closed`:
+whatever fails — workers, call sites, callbacks — every finished task has handed back its slot -/
+theorem C12_finished_released_all (base : Nat) (h : History) (hn : ∀ x ∈ h, x.admits noAsync = true) (i : Nat) (c : Cfg)
+    (p : Pool) (hc : ((World.init base).run h).cfgs[i]? = some c) (hp : ((World.init base).run h).pools[i]? = some p)
+    (t : Nat) (tk : PTask) (ht : p.tasks[t]? = some tk) (hf : tk.phase = .finished) : tk.released = true :=
+  C12_finished_released base h i c p hc hp (strictAll base h hn i c p hc hp).1 t tk ht hf
 
 /-- a collecting `flush()` / `gather_and_close()` (`return_exceptions=True`) cannot raise: its gathers complete only
 normally (restated from C13) -/
